@@ -985,6 +985,8 @@ def _simplify_function_call(call: HplFunctionCall) -> HplExpression:
 
     elif fun.name == 'gcd':
         # FIXME compound single argument signature
+        if len(call.arguments) < 2:
+            return call
         arg1: HplExpression = _simplify(call.arguments[0])
         arg2: HplExpression = _simplify(call.arguments[1])
         if is_number_literal(arg1) and is_number_literal(arg2):
